@@ -124,6 +124,7 @@ func robustUniverse(tier string) []*V {
 		VAnys(), VAnys(VNil(), i(1)), VAnys(s("b"), s("a"), i(3)),
 		VStrMap(SKV("a", i(1)), SKV("b", i(2))), VMap(TInt(0), TAny, KV(i(1), s("x"))), VRange(3, 1),
 		VAnys(VStrMap(SKV("name", s("b")), SKV("abc", i(1))), VStrMap(SKV("name", s("a")))), // objects, one lacking a key
+		VInt(4, 0), VInt(5, 0), // zeros of other integer types (int64, uint): guards written as `b == 0` on an `any` miss them
 	}
 	if tier != "thorough" {
 		return u
